@@ -73,7 +73,9 @@ impl<'a> Lexer<'a> {
 
     /// consume the whitespace sequence following the stream start
     pub fn next_stream(&mut self) -> Result<()> {
-        let pos = self.skip_whitespace(self.pos)?;
+        // white-space and comments may precede the keyword
+        let (word, end) = self.next_word()?;
+        let pos = end - word.len();
         if !self.buf[pos ..].starts_with(b"stream") {
             // bail!("next token isn't 'stream'");
         }
